@@ -124,12 +124,14 @@ inductive GOut where
   | comps (c : Option Nat)          -- all five accessors show configuration `c`; none = all empty
   deriving Repr, DecidableEq
 
-/-- What an emitter received: the event and the ambient `cfg` property it arrived with (none = no ambient
-    context was added). -/
+/-- What an emitter received: the event, the ambient `cfg` property it arrived with (none = no ambient
+    context was added) and whether it arrived with an extent (the events have none of their own, so an extent is
+    the runtime clock's doing). -/
 structure Delivery where
   cfg : Nat
   evt : GEvt
   amb : Option Nat
+  clocked : Bool
   deriving Repr, DecidableEq
 
 def flushNeeds : Nat := 500
@@ -163,7 +165,7 @@ def GState.initInternal (s : GState) (i : Nat) (f : FSpec) : GState × Bool :=
     the empty runtime: nothing happens. -/
 def throughRuntime (slot : State) (flt : Option FSpec) (e : GEvt) : Option Delivery :=
   match slot.slot, flt with
-  | some w, some f => if f.accepts e then some ⟨w, e, some w⟩ else none
+  | some w, some f => if f.accepts e then some ⟨w, e, some w, true⟩ else none
   | _, _ => none
 
 def gstep (s : GState) : GLabel → GState × GOut
@@ -186,10 +188,10 @@ def gstep (s : GState) : GLabel → GState × GOut
     match throughRuntime s.shared s.sharedF e with
     | some d => ({ s with shared := (step s.shared (.emit e.id)).1, delivered := d :: s.delivered }, .sent (some d.cfg))
     | none => (s, .sent none)
-  -- `emit::emitter()` is the bare emitter: no filter, no ambient properties
+  -- `emit::emitter()` is the bare emitter: no filter, no clock, no ambient properties
   | .direct e =>
     match s.shared.slot with
-    | some w => ({ s with shared := (step s.shared (.emit e.id)).1, delivered := ⟨w, e, none⟩ :: s.delivered }, .sent (some w))
+    | some w => ({ s with shared := (step s.shared (.emit e.id)).1, delivered := ⟨w, e, none, false⟩ :: s.delivered }, .sent (some w))
     | none => (s, .sent none)
   | .emitInternal e =>
     match throughRuntime s.internal s.internalF e with
